@@ -832,7 +832,13 @@ class WorkflowConductor(object):
 
         # If the task has retry spec defined, then setup the retry in the task state entry.
         if self.graph.task_has_retry(task_id):
-            self.setup_retry_in_task_state(task_state_entry, in_ctx_idxs)
+            try:
+                self.setup_retry_in_task_state(task_state_entry, in_ctx_idxs)
+            except Exception as e:
+                # Fail the workflow if the retry delay or count cannot be evaluated.
+                task_state_entry.pop("retry", None)
+                self.log_error(e, task_id=task_id, route=route)
+                self.request_workflow_status(statuses.FAILED)
 
         # Append the task state entry to the list of task execution.
         task_state_entry_id = constants.TASK_STATE_ROUTE_FORMAT % (task_id, str(route))
@@ -953,9 +959,18 @@ class WorkflowConductor(object):
             # the state machine has determined the status for the task execution. If the task
             # is completed, get the task result and context which is required to evaluate the
             # the condition if a retry for the task is required.
-            if self.get_workflow_status() in statuses.ACTIVE_STATUSES and self._evaluate_task_retry(
-                task_state_entry, current_ctx
-            ):
+            try:
+                retry_requested = (
+                    self.get_workflow_status() in statuses.ACTIVE_STATUSES
+                    and self._evaluate_task_retry(task_state_entry, current_ctx)
+                )
+            except Exception as e:
+                # Fail the workflow if the retry condition cannot be evaluated.
+                retry_requested = False
+                self.log_error(e, task_id=task_id, route=route)
+                self.request_workflow_status(statuses.FAILED)
+
+            if retry_requested:
                 return self.update_task_state(task_id, route, events.TaskRetryEvent())
 
         # Evaluate task transitions if task is completed and status change is not processed.
